@@ -74,7 +74,7 @@ def scenario(tier):
                     ch = None
                     b.require(False, "chain-unparsable-after-kill", "%s: %s" % (tag, ex.detail))
                 listed = any(e.path == new[0] for e in ch)
-                b.require(listed, "manifest-present-but-not-chained", "%s: %s/ascmhl/%s exists but the chain does not list it" % (tag, hr, new[0]))
+                b.require(listed, "manifest-present-but-not-chained", "%s: %s/ascmhl/%s exists but the chain does not list it" % (tag, hr, new[0]), soft=True)
         # the next commands load the history normally
         for cmd in ("info", "verify", "create"):
             if cmd == "info" and prior == 0 and not b.manifest_names("R"):
